@@ -15,6 +15,11 @@ func CompareAny(a, b any) int {
 	bv := reflect.ValueOf(b)
 	at := av.Kind()
 	bt := bv.Kind()
+	// A number is the same number whatever its width or signedness, e.g.
+	// MessagePack clients send integers in the smallest type that holds them.
+	if res, ok := compareNumbers(av, bv); ok {
+		return res
+	}
 	if at != bt {
 		// Different types, compare type kinds directly so same types are grouped up.
 		return cmp.Compare(at, bt)
@@ -32,6 +37,56 @@ func CompareAny(a, b any) int {
 	}
 	// We don't know how to compare this type, so we just say they are equal.
 	return 0
+}
+
+func isIntKind(k reflect.Kind) bool {
+	return k >= reflect.Int && k <= reflect.Int64
+}
+
+func isUintKind(k reflect.Kind) bool {
+	return k >= reflect.Uint && k <= reflect.Uint64
+}
+
+func isFloatKind(k reflect.Kind) bool {
+	return k == reflect.Float32 || k == reflect.Float64
+}
+
+// Compares two values if both are numbers of any integer or float type.
+func compareNumbers(av, bv reflect.Value) (int, bool) {
+	at, bt := av.Kind(), bv.Kind()
+	switch {
+	case isIntKind(at) && isIntKind(bt):
+		return cmp.Compare(av.Int(), bv.Int()), true
+	case isUintKind(at) && isUintKind(bt):
+		return cmp.Compare(av.Uint(), bv.Uint()), true
+	case isIntKind(at) && isUintKind(bt):
+		if av.Int() < 0 {
+			return -1, true
+		}
+		return cmp.Compare(uint64(av.Int()), bv.Uint()), true
+	case isUintKind(at) && isIntKind(bt):
+		if bv.Int() < 0 {
+			return 1, true
+		}
+		return cmp.Compare(av.Uint(), uint64(bv.Int())), true
+	}
+	toFloat := func(v reflect.Value) (float64, bool) {
+		switch {
+		case isFloatKind(v.Kind()):
+			return v.Float(), true
+		case isIntKind(v.Kind()):
+			return float64(v.Int()), true
+		case isUintKind(v.Kind()):
+			return float64(v.Uint()), true
+		}
+		return 0, false
+	}
+	af, aok := toFloat(av)
+	bf, bok := toFloat(bv)
+	if aok && bok {
+		return cmp.Compare(af, bf), true
+	}
+	return 0, false
 }
 
 // Accesses a nested property in a map of the form path "a.b.c".
